@@ -25,3 +25,12 @@ OBS.append(Ob(['C08', 'C02'], 'mser_arr', 'doc', 'harness/doc_ser.c', 'h_mser_ar
 for tw, tn in [(0, 'charptr'), (1, 'jsonstring_copied')]:
     OBS.append(Ob(['C14', 'C13'], 'str_twins_exp2_%s' % tn, 'doc', 'harness/doc_str.c', 'h_str_twins', defs=['EXP2=1', 'TWIN=%d' % tw], unwind=9,
         desc='numeric string DeDD (exponents 00..99, single- and double-precision paths) given as const char* (linked) vs %s: identical as<T>()' % tn, bound='all 1000 digit triples; exactly-sized source buffers', **K3))
+H = dict(K3, hunwind=12)
+for r in (0, 1, 2):
+    OBS.append(Ob(['C04', 'C06'], 'hist_add_remove_add_r%d' % r, 'doc', 'harness/doc_hist.c', 'h_add_remove_add', defs=['R=%d' % r], unwind=8, desc='add a,b,c; remove(%d); add d: order, values, size, slot reuse without allocator call, all blocks returned' % r, bound='all int32 values', **H))
+for fa in (0, 1, 2):
+    OBS.append(Ob(['C05', 'C04'], 'hist_five_adds_fail%d' % fa, 'doc', 'harness/doc_hist.c', 'h_five_adds', defs=['FAILAT=%d' % fa], unwind=8, desc='five add() on 4-slot pools with allocator call #%d failing (0 = none): failure reported exactly there, overflowed(), other elements intact' % fa, bound='all int32 values; failure position part of the shape', **H))
+for ix in (0, 1, 3):
+    OBS.append(Ob(['C04'], 'hist_set_beyond_%d' % ix, 'doc', 'harness/doc_hist.c', 'h_set_beyond', defs=['IDX=%d' % ix], unwind=8, desc='[a]; doc[%d] = x: array extended with nulls up to the index' % ix, bound='all int32 values', **H))
+OBS.append(Ob(['C04', 'C06'], 'hist_copy', 'doc', 'harness/doc_hist.c', 'h_copy', unwind=8, tier='thorough', desc='copy construction is deep: source mutated afterwards, copy unchanged; all blocks returned', bound='all int32 values', **H))
+OBS.append(Ob(['C05', 'C06', 'C04'], 'hist_clear_reuse', 'doc', 'harness/doc_hist.c', 'h_clear_reuse', unwind=8, desc='clear() releases every block and the document is usable again', bound='all int32 values', **H))
